@@ -1,8 +1,25 @@
 use std::slice::Iter;
 use std::vec::IntoIter;
 
-#[derive(Clone, Debug, PartialEq, Eq, PartialOrd, Ord)]
+#[derive(Clone, Debug, Eq, PartialOrd, Ord)]
 pub struct OrderMap<K, V>(Vec<(K, V)>);
+
+/// Maps are equal if they have equal keys mapped to equal values,
+/// regardless of the order of the keys.
+impl<K: PartialEq, V: PartialEq> PartialEq for OrderMap<K, V> {
+    fn eq(&self, other: &Self) -> bool {
+        fn subset<K: PartialEq, V: PartialEq>(
+            a: &[(K, V)],
+            b: &[(K, V)],
+        ) -> bool {
+            a.iter()
+                .all(|(k, v)| b.iter().any(|(bk, bv)| k == bk && v == bv))
+        }
+        self.0.len() == other.0.len()
+            && subset(&self.0, &other.0)
+            && subset(&other.0, &self.0)
+    }
+}
 
 impl<K: Clone + PartialEq, V: Clone> OrderMap<K, V> {
     pub fn new() -> Self {
